@@ -2908,7 +2908,12 @@ Proof.
 Qed.
 
 (* the length the root entry will record fits the version's length field: the
-   mini stream of a version-3 file cannot reach 4 GiB *)
+   mini stream of a version-3 file cannot reach 4 GiB.  Since fix b10c443
+   append_mini_sector tests exactly this (together with the sector-count bound,
+   which [SA.mroom] gives: [SA.mroom_append_bound]) and refuses with the state
+   unchanged otherwise; [SA.mroom] now carries the same bound for the appended
+   part only, so [RootFits] (which also counts mini sectors taken from the free
+   list) is the stronger of the two and is kept for [root_len_coherent] *)
 Definition RootFits (s : cstate) (k : N) : Prop :=
   64 * (lenN (minifat s) + k) <= stream_len_mask (ver s).
 
@@ -2995,7 +3000,8 @@ Proof.
                    64 * (lenN (minifat s) + 1) <= slen s * lenN rids /\
                    lenN (minifat s) + 1 <= MAX_REGULAR_SECTOR + 1).
     { unfold SA.mroom in Hroom. rewrite Elast in Hroom. cbn [lenN] in Hroom.
-      destruct Hroom as [H|H]; [lia|]. replace (1 - 0) with 1 in H by lia. exact H. }
+      destruct Hroom as [H|H]; [lia|]. replace (1 - 0) with 1 in H by lia.
+      destruct H as (H1 & H2 & H3 & _). repeat split; assumption. }
     destruct Hcap as (Hmcap & Hrcap & Hbcap).
     pose proof (slen_pos s) as Hslp.
     assert (Hmne : mfids <> []) by (intros ->; cbn [lenN] in Hmcap; lia).
@@ -3077,6 +3083,12 @@ Proof.
         assert (Emod : d_len r mod MINI_SECTOR_LEN = 0).
         { rewrite Hrlen. unfold MINI_SECTOR_LEN. rewrite N.mul_comm. apply N.mod_mul. lia. }
         rewrite Emod. cbn [N.eqb negb]. rewrite bind_ret.
+        (* the repaired crate's test: exactly [RootFits s 1] (and the sector-count bound) *)
+        rewrite bind_get.
+        pose proof (SA.mroom_append_bound s (lenN (minifat s) + 1) Hbcap Hrf) as Hbd1.
+        destruct (N.min (MAX_REGULAR_SECTOR * slen s) (stream_len_mask (ver s)) <? d_len r + MINI_SECTOR_LEN) eqn:Eb;
+          [apply N.ltb_lt in Eb; rewrite Hrlen in Eb; unfold MINI_SECTOR_LEN in Eb; lia|].
+        rewrite bind_ret.
         destruct (d_start r =? END_OF_CHAIN) eqn:Er; [apply N.eqb_eq in Er; contradiction|].
         assert (Hns : (do c <- chain_new (d_start r) IZero;
                        do s0 <- get;
